@@ -11,7 +11,7 @@ attribute views when both succeed; otherwise both raise (fail-fast: a `ParseErro
 iteration order) or both collect (`collect_errors`, no `max_errors`: the same set of ⟨kind, item⟩).
 `C06_strategy_unobservable` : whatever `data_first_search` is set to (True, False, None = chosen by
 `assign_search_strategy`), the outcome is the same in that sense.
-The `C06_legacy_*` witnesses refute all of this for the code before fixes/C06-strategy-equivalence.patch.
+The `C06_legacy_*` witnesses refute all of this for the code before fixes/C06-1..5-*.patch.
 -/
 namespace Utv.C06
 open Utv.C05 Utv.C05.Spec
@@ -24,7 +24,7 @@ theorem C06_df_eq_ff [DecidableEq V] (W : World V) (LL : LowerLaws W) (P : Parse
     MapEq (dataFirst {} W P o data).result (fieldFirst {} W P o data).result
     ∧ SetEq (dataFirst {} W P o data).errs (fieldFirst {} W P o data).errs := by
   have wf := WF.of_wf hwf
-  obtain ⟨h1, h2⟩ := dataFirst_equiv_ref LL wf o data
+  obtain ⟨h1, h2⟩ := dataFirst_equiv_ref LL wf o data hnd
   rw [fieldFirst_eq_ref LL wf o hnd]
   exact ⟨h1, h2⟩
 
@@ -125,7 +125,7 @@ theorem C06_strategy_unobservable [DecidableEq V] (W : World V) (LL : LowerLaws 
   rw [parseData_eq_parseWith]
   exact C06_same_outcome W LL P hwf o data hnd (useDataFirst P o) b
 
-/-! ### Non-vacuity, and the code before fixes/C06-strategy-equivalence.patch -/
+/-! ### Non-vacuity, and the code before fixes/C06-1..5-*.patch -/
 
 def P₀ : Parser Nat := mkParser W₀ cA
 
